@@ -1,8 +1,10 @@
 package checks
 
 import (
+	"strings"
 	"sync/atomic"
 	_ "time/tzdata"
+	"unsafe"
 
 	"fmt"
 	"reflect"
@@ -27,6 +29,42 @@ type c02Case struct {
 	Nil    bool   `json:"nil_param"`
 	Skew   uint64 `json:"skew,omitempty"` // generation does not use the window: must not matter
 	AppDef bool   `json:"application_changed_the_exported_defaults,omitempty"`
+	// MonoAt != 0: the instant carries THIS monotonic reading (nanoseconds), whatever the wall clock says - two
+	// time.Now() values straddling a clock step or a suspend have wall and monotonic differences that disagree
+	MonoAt int64 `json:"monotonic_reading_ns,omitempty"`
+}
+
+// timeLayout mirrors time.Time (wall: hasMonotonic bit, 33 bits of seconds since 1885, 30 bits of nanoseconds; ext:
+// the monotonic reading); monoLayoutOK says whether this Go release lays a time.Now() value out like that.
+type timeLayout struct {
+	wall uint64
+	ext  int64
+	loc  *time.Location
+}
+
+const wallSecondsFromUnix = 2682288000 // 1885-01-01 .. 1970-01-01
+
+var monoLayoutOK = func() bool {
+	now := time.Now()
+	l := *(*timeLayout)(unsafe.Pointer(&now))
+	if unsafe.Sizeof(now) != unsafe.Sizeof(l) || l.wall>>63 != 1 {
+		return false
+	}
+	return int64(l.wall<<1>>31) == now.Unix()+wallSecondsFromUnix && int64(l.wall&(1<<30-1)) == int64(now.Nanosecond())
+}()
+
+// withMonotonic returns the instant (unix, nsec) carrying the monotonic reading mono.
+func withMonotonic(unix, nsec, mono int64) (time.Time, bool) {
+	ws := unix + wallSecondsFromUnix
+	if !monoLayoutOK || ws < 0 || ws >= 1<<33 || nsec < 0 || nsec >= 1e9 {
+		return time.Time{}, false
+	}
+	l := timeLayout{wall: 1<<63 | uint64(ws)<<30 | uint64(nsec), ext: mono, loc: time.Local}
+	t := *(*time.Time)(unsafe.Pointer(&l))
+	if t.Unix() != unix || int64(t.Nanosecond()) != nsec || !strings.Contains(t.String(), " m=") {
+		return time.Time{}, false
+	}
+	return t, true
 }
 
 var c02Locs = func() []*time.Location {
@@ -43,6 +81,13 @@ var c02Locs = func() []*time.Location {
 
 func (c c02Case) instant() (time.Time, bool) {
 	t := time.Unix(c.Unix, c.Nsec)
+	if c.MonoAt != 0 {
+		mt, ok := withMonotonic(c.Unix, c.Nsec, c.MonoAt)
+		if !ok {
+			return t, false
+		}
+		return inKeepingMonotonic(mt, c02Locs[c.Loc]), true
+	}
 	if c.Mono {
 		now := time.Now()
 		d := t.Sub(now)
@@ -54,7 +99,30 @@ func (c c02Case) instant() (time.Time, bool) {
 			return t, false
 		}
 	}
+	if c.Mono {
+		return inKeepingMonotonic(t, c02Locs[c.Loc]), true
+	}
 	return t.In(c02Locs[c.Loc]), true
+}
+
+// inKeepingMonotonic is t.In(loc) without the side effect of Time.In, which strips the monotonic reading: a value
+// "with a monotonic reading in another location" is what a caller holds after t = time.Now(); t2 := t; setting a
+// location through any API that keeps the reading (or simply time.Now() under TZ=...).
+func inKeepingMonotonic(t time.Time, loc *time.Location) time.Time {
+	if !monoLayoutOK {
+		return t.In(loc)
+	}
+	want := t.In(loc)
+	l := (*timeLayout)(unsafe.Pointer(&t))
+	if loc == time.UTC {
+		l.loc = nil
+	} else {
+		l.loc = loc
+	}
+	if !t.Equal(want) || t.Unix() != want.Unix() || t.String()[:19] != want.String()[:19] {
+		return want
+	}
+	return t
 }
 
 func totpGen(c c02Case, key []byte) (obs, bad string) {
@@ -163,9 +231,9 @@ func c02(r *ev.Run) {
 		var cs []c02Case
 		for _, t := range []int64{59, 1111111109, 20000000000} {
 			for a := 0; a < 3; a++ {
-				cs = append(cs, c02Case{sp, t, 0, 0, false, 30, 8, a, false, 0, false})
+				cs = append(cs, c02Case{sp, t, 0, 0, false, 30, 8, a, false, 0, false, 0})
 			}
-			cs = append(cs, c02Case{sp, t, 999999999, 1, false, 0, 6, 0, false, 0, false}, c02Case{Secret: sp, Unix: t, Nil: true})
+			cs = append(cs, c02Case{sp, t, 999999999, 1, false, 0, 6, 0, false, 0, false, 0}, c02Case{Secret: sp, Unix: t, Nil: true})
 		}
 		for _, n := range []int{1, 16, 19, 21, 33, 64} {
 			cs = append(cs, c02Case{Secret: ref.B32Encode(patt(n, 9)), Unix: 1111111109, Period: 30, Digits: 6, Algo: n % 3})
@@ -207,7 +275,7 @@ func c02(r *ev.Run) {
 		afterWarmups(r, "totp-generate-after-other-operations", cs, func(c c02Case) (string, string) { _, key := ref.B32Classify(c.Secret); return totpGen(c, key) })
 	}
 	volume(r, "totp-generate-volume", 1100, func(k int) c02Case {
-		return c02Case{ref.B32Encode([]byte(fmt.Sprintf("volume-key-%04d-0123456789abcdefghij", k))[:10+(k*7)%27]), int64(k) * 977, 0, k % 4, false, []uint64{30, 0, 60, 1}[k%4], 6 + 2*(k%2), k % 3, false, 0, false}
+		return c02Case{ref.B32Encode([]byte(fmt.Sprintf("volume-key-%04d-0123456789abcdefghij", k))[:10+(k*7)%27]), int64(k) * 977, 0, k % 4, false, []uint64{30, 0, 60, 1}[k%4], 6 + 2*(k%2), k % 3, false, 0, false, 0}
 	}, func(c c02Case) (string, string) { _, key := ref.B32Classify(c.Secret); return totpGen(c, key) })
 	if ReplayOnly {
 		return
@@ -272,7 +340,7 @@ func c02(r *ev.Run) {
 							if !(d == 6 && a == 0) && vi != 0 && vi != int(t+int64(d)+int64(a))%32 {
 								continue
 							}
-							c := c02Case{sec, t, nsecs[vi%4], (vi / 4) % 4, vi >= 16, j.period, d, a, false, 0, false}
+							c := c02Case{sec, t, nsecs[vi%4], (vi / 4) % 4, vi >= 16, j.period, d, a, false, 0, false, 0}
 							obs, bad := totpGen(c, key)
 							if obs == "skip" {
 								continue
@@ -288,7 +356,7 @@ func c02(r *ev.Run) {
 					}
 				}
 				if j.period == 30 || j.period == 0 {
-					c := c02Case{sec, t, 1, 1, false, 0, 0, 0, true, 0, false}
+					c := c02Case{sec, t, 1, 1, false, 0, 0, 0, true, 0, false, 0}
 					obs, bad := totpGen(c, key)
 					local++
 					if bad != "" {
@@ -316,7 +384,7 @@ func c02(r *ev.Run) {
 						if pass == 1 {
 							t = instants[(i*5)%len(instants)]
 						}
-						c := c02Case{sec, t, int64(i%2) * 999999999, i % 4, false, per, d, i % 3, (per == 30 || per == 0) && d == 6 && i%3 == 0 && pass == 1, 0, false}
+						c := c02Case{sec, t, int64(i%2) * 999999999, i % 4, false, per, d, i % 3, (per == 30 || per == 0) && d == 6 && i%3 == 0 && pass == 1, 0, false, 0}
 						if c.Nil {
 							c.Algo = 0
 						}
@@ -331,6 +399,46 @@ func c02(r *ev.Run) {
 				}
 			}
 		}
+		// the same histories with monotonic readings that DISAGREE with the wall clock: every call carries a reading a
+		// few milliseconds after the previous call's (as if the wall clock had been stepped, or the host suspended,
+		// between two time.Now() calls), and the mirror image: equal wall instants with readings hours apart
+		var mn int64
+		if monoLayoutOK {
+			for _, per := range []uint64{30, 0, 60, 1} {
+				for _, mode := range []int{0, 1, 2} {
+					emptySyncPools()
+					var hist []c02Case
+					mono := int64(5_000_000_000)
+					for i := 0; i < 2*len(instants); i++ {
+						t := instants[(i*5)%len(instants)]
+						switch mode {
+						case 0:
+							mono += 3_000_000 // 3 ms later on the monotonic clock, anywhere on the wall clock
+						case 1:
+							mono -= 7_000_000 // ... and earlier (readings are only ever compared, never trusted)
+						case 2:
+							t = instants[(i/2*5)%len(instants)] // every instant twice, readings three hours apart
+							mono += 3 * 3600 * 1_000_000_000
+						}
+						c := c02Case{Secret: sec, Unix: t, Nsec: int64(i%2) * 999999999, Loc: i % 4, Period: per, Digits: 6, Algo: 0, MonoAt: mono}
+						if _, ok := c.instant(); !ok {
+							continue
+						}
+						hist = append(hist, c)
+						obs, bad := totpGen(c, key)
+						mn++
+						if bad != "" {
+							r.Fail("totp-generate-history", fmt.Sprintf("call %d of a history with period %d whose monotonic readings disagree with the wall clock (mode %d, instant %d): %s", len(hist)-1, per, mode, t, bad), hist, bad, obs)
+							break
+						}
+					}
+				}
+			}
+		} else {
+			r.NotExhaustive("time.Time is not laid out as assumed: instants with arbitrary monotonic readings could not be built")
+		}
+		hn += mn
+		r.Set("history_calls_with_disagreeing_monotonic_readings", mn)
 		r.Eval(hn)
 		r.Set("history_calls", hn)
 	}
@@ -344,7 +452,7 @@ func c02(r *ev.Run) {
 			for si, sec := range spellings(key) {
 				for _, t := range []int64{59, 1111111109} {
 					for a := 0; a < 3; a++ {
-						c := c02Case{sec, t, 0, 0, false, []uint64{30, 0}[si%2], 6 + 2*(a%2), a, false, 0, false}
+						c := c02Case{sec, t, 0, 0, false, []uint64{30, 0}[si%2], 6 + 2*(a%2), a, false, 0, false, 0}
 						obs, bad := totpGen(c, key)
 						local++
 						if bad != "" {
@@ -403,7 +511,7 @@ func c02(r *ev.Run) {
 						if pi == 1 && dt != 0 {
 							continue
 						}
-						c := c02Case{sec, t + dt, 0, li, false, per, 6, 0, false, 0, false}
+						c := c02Case{sec, t + dt, 0, li, false, per, 6, 0, false, 0, false, 0}
 						obs, bad := totpGen(c, key)
 						local++
 						if bad != "" {
@@ -424,8 +532,8 @@ func c02(r *ev.Run) {
 	if tcf1 := reflect.ValueOf(otp.TimeCounterFunc).Pointer(); tcf1 != tcf0 {
 		r.Fail("totp-generate", "TimeCounterFunc-replaced", "TimeCounterFunc", "same function value before and after", "changed")
 	}
-	r.Sample(map[string]any{"case": c02Case{spellings(keys[0])[0], 59, 999999999, 3, true, 30, 8, 0, false, 0, false}, "ref": ref.HOTP(keys[0], 1, 8, 0)})
-	r.Sample(map[string]any{"case": c02Case{spellings(keys[0])[0], 89, 0, 0, false, 0, 6, 1, false, 0, false}, "note": "period 0 means 30", "ref": ref.HOTP(keys[0], 2, 6, 1)})
+	r.Sample(map[string]any{"case": c02Case{spellings(keys[0])[0], 59, 999999999, 3, true, 30, 8, 0, false, 0, false, 0}, "ref": ref.HOTP(keys[0], 1, 8, 0)})
+	r.Sample(map[string]any{"case": c02Case{spellings(keys[0])[0], 89, 0, 0, false, 0, 6, 1, false, 0, false, 0}, "note": "period 0 means 30", "ref": ref.HOTP(keys[0], 2, 6, 1)})
 	r.Set("alphabet", map[string]any{"periods": "0..64 (every whole second of 4 steps + boundaries near 1111111100, 2^31, 2^32), 3600, 86400, 2^16, 2^31-1, 2^31, 2^32-1, 2^32 (boundaries of steps 0,1,2,top-1,top and t around 2^31, 2^32, 2^62-1)", "nsec": nsecs, "locations": "UTC,+14:00,-12:00,+05:45", "monotonic": "with/without where representable", "digits": "6,8,10", "hash": "0..2", "param": "nil/explicit"})
 	r.Rule("every (period, instant) of the grid x digits x hash through GenerateTOTP vs reference HOTP at floor(unix/period) (0 => 30), every instant also in all nsec/zone/monotonic variants, each generated code validated at its own instant; distinct = distinct (period, step, hash, output) tuples")
 	r.Assume("time.Time.Unix() of the Go standard library; crypto/hmac")
